@@ -10,10 +10,11 @@ ASSUME_WORLD = [
 
 
 def shard(acc, prop, tier, seed, shard_i, nshards, factory, weights, quick, thorough, corruptions=None,
-          world_kw=None, hist_kw=None, pre_hook=None):
+          world_kw=None, hist_kw=None, pre_hook=None, post_hook=None, post_every=(3, 1)):
     nw, steps = quick if tier == "quick" else thorough
     run_worlds(acc, prop, tier, seed, shard_i, nshards, factory, weights, nw, steps,
-               world_kw=world_kw, hist_kw=hist_kw, pre_hook=pre_hook, corruptions=corruptions)
+               world_kw=world_kw, hist_kw=hist_kw, pre_hook=pre_hook, corruptions=corruptions,
+               post_hook=post_hook, post_every=post_every[0] if tier == "quick" else post_every[1])
 
 
 def need(acc, msgs, name, n):
